@@ -90,8 +90,12 @@ EVIDENCE_NOTES = [
     "NOT re-proved over the extended model (left unfinished in round 5): the two liveness theorems under fair schedules "
     "(exit_returns_fair, wake_served_fair) that earlier rounds had; the safety invariants, the accounting theorems and the "
     "variant (rank strictly decreasing on the way out, incl. callback scripts, close dispatches, timer callback) hold in "
-    "full; a theorem 'no library call on the loop after its deletion' is not mechanised either: the model counts such "
-    "calls (g_uaf) and the monitor checks the traces of the del-* family",
+    "full; a theorem 'no library call on the loop after its deletion' is mechanised only as a characterisation "
+    "(round 7, C14/ProofsUaf.v): uaf_only_by_step_after_delete - g_uaf never decreases and grows by one only at a step taken "
+    "while the loop is already freed - and the hazard witness loop_deleted_while_exit_in_flight_witness (requester between its "
+    "store to to_exit and its wake-up write when another requester's exit lets run() return and the owner deletes the loop: "
+    "outside the documented usage 'the loop object outlives every call on it'); the model counts such calls (g_uaf) and the "
+    "monitor checks the traces of the del-* family",
     "round 3: seeded change C14-5 (poll back-end: WAKE->EXIT promotion skipped when cb_wake is NULL) was missed because "
     "every scenario installed every callback; the configuration space now covers each optional callback NULL/installed "
     "and bare loops (corpus matrix cbm-* of 336 cases + generator), the model's promotion step is independent of the "
